@@ -8,6 +8,9 @@ mod standalone_read_handle;
 
 pub use standalone::StandaloneEngine;
 pub(crate) use standalone_read_handle::StandaloneReadHandle;
+// verification hook (inert unless built with --cfg d_engine_verif): lets the in-crate replay tests reach the handle
+#[cfg(all(test, d_engine_verif))]
+pub(crate) use embedded_read_handle::EmbeddedReadHandle;
 
 /// Embedded engine generic over any `(SE, SM)` pair.
 pub type EmbeddedEngine<SE, SM> = embedded::EmbeddedEngine<crate::node::RaftTypeConfig<SE, SM>>;
